@@ -134,8 +134,16 @@ def _apply(tmp: str, on_disk: dict[str, str], target: dict[str, str], tick: list
 
 
 def run_fg_case(case: dict[str, Any], root: str, order: str = "forward") -> dict[str, Any]:
+    """order: forward / back / reverse, or 'cache': the files of step 1 are first checked by an ordinary batch build that
+    writes a fine-grained cache (`--cache-fine-grained`), the daemon then starts FROM THAT CACHE (use_fine_grained_cache)
+    and serves the case's steps 1..n. As in the repository's own cache-mode suite only cases whose first step is
+    error-free are run this way (a cache built from a state with errors loses them: a recorded finding of the D catalogue)."""
     out: dict[str, Any] = {"name": case["name"], "file": case.get("file", ""), "order": order, "steps": 0, "violation": None, "skipped": skip_reason(case), "nontrivial": False}
     if out["skipped"]:
+        return out
+    use_cache = order == "cache"
+    if use_cache and (case["name"].endswith("-only_when_nocache") or "num_build_steps" in case["main"]):
+        out["skipped"] = "not meant for cache mode"
         return out
     text = case["main"]
     states = C.states_of(case)
@@ -159,10 +167,34 @@ def run_fg_case(case: dict[str, Any], root: str, order: str = "forward") -> dict
         os.chdir(root)
         from mypy.dmypy_server import Server
 
-        server = Server(_options(text, 1, True), os.path.join(root, ".status.json"))
         tick = [1000]
         on_disk: dict[str, str] = {}
         resps = []
+        dopts = _options(text, 1, True)
+        if use_cache:
+            _apply("tmp", on_disk, dict(states[seq[0] - 1], **fixtures), tick)
+
+            def batch() -> dict[str, Any]:
+                import mypy.build as B
+                from mypy.errors import CompileError
+                bo = _options(text, 1, False)
+                bo.incremental = True
+                bo.cache_fine_grained = True
+                bo.cache_dir = os.path.join(root, "fgcache")
+                bo.sqlite_cache = False
+                try:
+                    res = B.build(_sources(text, 1, bo), bo)
+                    return {"messages": res.errors}
+                except CompileError as e:
+                    return {"messages": e.messages}
+
+            b = _fork(batch)
+            if b.get("crash") or b.get("messages"):
+                return {"responses": [], "not_clean": True}
+            dopts.use_fine_grained_cache = True
+            dopts.cache_dir = os.path.join(root, "fgcache")
+            dopts.sqlite_cache = False
+        server = Server(dopts, os.path.join(root, ".status.json"))
         for pos, step in enumerate(seq):
             _apply("tmp", on_disk, dict(states[step - 1], **fixtures), tick)
             shutil.copytree("tmp", "snap%d" % pos)
@@ -177,6 +209,9 @@ def run_fg_case(case: dict[str, Any], root: str, order: str = "forward") -> dict
         return {"responses": resps}
 
     d = _fork(daemon)
+    if d.get("not_clean"):
+        out["skipped"] = "first step not error-free (cache mode)"
+        return out
     if d.get("crash"):
         out["skipped"] = "harness could not run the daemon: " + d["crash"][-300:]
         return out
